@@ -183,7 +183,8 @@ def evaluate(F, cfg):
     rows = []
     for s in PROBES:
         want = spec(s, cfg)
-        m = IdentModel(F)
+        import tokmodel
+        m = tokmodel.TokModel(F)
         env = {ps[0]["id"]: s}
         try:
             try:
